@@ -218,8 +218,12 @@ macro_rules! explorer {
                             // ---- bump(1) when in range and on a boundary
                             if e + 1 <= len && $is_boundary(src, e + 1) {
                                 let mut n2 = node.clone();
-                                n2.bump1();
+                                let bumped = std::panic::catch_unwind(std::panic::AssertUnwindSafe(|| n2.bump1()));
                                 rep.count("transitions", 1);
+                                if bumped.is_err() {
+                                    complain(rep, "BUMP", &hist, format!("an in-range bump(1) from {s}..{e} (len {len}) panicked"));
+                                    continue;
+                                }
                                 if n2.span() != (s, e + 1) {
                                     complain(rep, "BUMP", &hist, format!("bump(1) from {s}..{e} gives {:?}", n2.span()));
                                 }
@@ -309,6 +313,7 @@ explorer!(strs, SA, SB, str, to_str, str_boundary, str_bytes);
 explorer!(bins, BA, BB, [u8], ident, bin_boundary, ident);
 
 pub fn run(tier: &str, rep: &mut Report) {
+    std::panic::set_hook(Box::new(|_| {}));
     let depth = if tier == "thorough" { 7 } else { 5 };
     rep.bounds.insert("histories".into(), format!("all sequences of {{next, bump(1) when legal, clone, morph, spanned}} up to depth {depth}, de-duplicated on (definition, token_start, token_end, extras), for 2 definition pairs (str, bytes) x {{ordinary, partial}} x both start definitions x 7 sources"));
     let str_sources: [&str; 7] = ["", "ab 12", "éa€b", "abc  ", "ab..", "a!b", "ab. x9"];
